@@ -31,6 +31,7 @@ use bitvec::view::BitView;
 use serde::{Deserialize, Serialize};
 
 use core::borrow::Borrow;
+use core::cmp::Ordering;
 use core::hash::{Hash, Hasher};
 use core::marker::PhantomData;
 use core::ops::{Bound, Deref, RangeBounds};
@@ -40,7 +41,7 @@ use core::{fmt, ptr, str};
 /// A arbitrary length sequence of bit-packed symbols
 ///
 /// Stored on the heap
-#[derive(Debug, PartialEq, Eq, PartialOrd, Ord)]
+#[derive(Debug, PartialEq, Eq)]
 #[cfg_attr(feature = "serde", derive(Serialize, Deserialize))]
 #[repr(transparent)]
 pub struct Seq<A: Codec> {
@@ -52,6 +53,33 @@ impl<A: Codec> From<Seq<A>> for usize {
     fn from(slice: Seq<A>) -> usize {
         debug_assert!(slice.bv.len() <= usize::BITS as usize);
         slice.bv.load_le::<usize>() //.wrapping_shr(shift)
+    }
+}
+
+/// Sequences are ordered colexicographically, like the `Kmer`s with the same content:
+/// the last symbol is the most significant (the numeric order of the packed bits).
+impl<A: Codec + Ord> Ord for Seq<A> {
+    fn cmp(&self, other: &Self) -> Ordering {
+        let bits = |seq: &Self, i: usize| -> u8 {
+            if i < seq.len() {
+                u8::from(&seq[i])
+            } else {
+                0
+            }
+        };
+        for i in (0..self.len().max(other.len())).rev() {
+            let (a, b) = (bits(self, i), bits(other, i));
+            if a != b {
+                return a.cmp(&b);
+            }
+        }
+        self.len().cmp(&other.len())
+    }
+}
+
+impl<A: Codec + Ord> PartialOrd for Seq<A> {
+    fn partial_cmp(&self, other: &Self) -> Option<Ordering> {
+        Some(self.cmp(other))
     }
 }
 
